@@ -14,6 +14,7 @@ from mc import core, refcip as R, sim, wire as W
 
 ID = "C06"
 LEVEL = "model_checking"
+ISOLATE_SHARDS = True        # every shard runs in a forked child of a pristine worker (mc/core.py)
 RULE = ("BFS over canonical session states (alive, registered?, #open connections, tag store), every frame of a 27-frame alphabet "
         "from every state; all frame sequences up to length N in two deliveries; pipelined runs k=1..64. non-trivial = distinct "
         "(state, frame) / sequences containing a failing or session-ending frame or a write")
@@ -576,3 +577,9 @@ def replay(case):
         shard(a, ("run", case["k"], tuple(case["pattern"])), "quick", 0)
         return [v["msg"] for v in a.violations]
     return [m for k, m in check_env(case["which"])]
+
+
+def preload():
+    """import the code under test once in the (pristine) worker; shard children are forked from it"""
+    from mc import sim as _sim
+    _sim.mods()
